@@ -2,12 +2,16 @@ use std::borrow::Cow;
 
 use bstr::{ByteSlice, ByteVec};
 
-/// The final component of the path, if it is a normal file.
+/// The final component of the path, i.e., everything after its last `/`.
 ///
-/// If the path terminates in `.`, `..`, or consists solely of a root of
-/// prefix, file_name will return None.
+/// If the path is empty, file_name will return None.
+///
+/// Note that unlike std::path::Path::file_name, this returns `.`, `..` and
+/// names ending in `.` (like `foo.`) as they are. A glob treats a `.` as a
+/// literal, so the basename based matching strategies must get to see such
+/// names in order to agree with the glob's regex.
 pub(crate) fn file_name<'a>(path: &Cow<'a, [u8]>) -> Option<Cow<'a, [u8]>> {
-    if path.last_byte().map_or(true, |b| b == b'.') {
+    if path.is_empty() {
         return None;
     }
     let last_slash = path.rfind_byte(b'/').map(|i| i + 1).unwrap_or(0);
